@@ -96,7 +96,7 @@ def main():
     dst = os.path.join(VERIF, "seeded", name)
     os.makedirs(dst, exist_ok=True)
     for f in ("patch.diff", "demo_test.go", "notes.md"):
-        if os.path.exists(os.path.join(seed, f)):
+        if os.path.exists(os.path.join(seed, f)) and os.path.abspath(seed) != os.path.abspath(dst):
             shutil.copy(os.path.join(seed, f), os.path.join(dst, f))
     old = {}
     if os.path.exists(os.path.join(dst, "meta.json")):
